@@ -2,8 +2,8 @@
   Hg.Model.Live — two more executable hypotheses of the fill/merge theorems.
 
   `hasTmpl t`: every sparse container (SparselyBin / Categorize) in `t` — through children and
-  templates — still has its sub-aggregator template, i.e. `t` is a live tree built by constructors,
-  not one reloaded from JSON.  `noBins t`: sparse containers hold no bins (only flows), as in a
+  templates — still has its sub-aggregator template, and no template holds bins, i.e. `t` is a live
+  tree built by constructors, not one reloaded from JSON.  `noBins t`: sparse containers hold no bins (only flows), as in a
   freshly constructed or `zero()`-ed tree.
 -/
 import Hg.Model.WF
@@ -11,22 +11,22 @@ import Hg.Model.WF
 namespace Hg
 
 mutual
-def hasTmpl : Agg → Bool
-  | .node k _ _ tmpl kids => (if k.isSparse then tmpl.isSome else true) && hasTmplOpt tmpl && hasTmplKids kids
-def hasTmplOpt : Option Agg → Bool
-  | none => true
-  | some t => hasTmpl t
-def hasTmplKids : List (Key × Agg) → Bool
-  | [] => true
-  | (_, a) :: rest => hasTmpl a && hasTmplKids rest
-end
-
-mutual
 def noBins : Agg → Bool
   | .node k _ _ _ kids => (if k.isSparse then kids.all (fun p => p.1 = .nanflow) else true) && noBinsKids kids
 def noBinsKids : List (Key × Agg) → Bool
   | [] => true
   | (_, a) :: rest => noBins a && noBinsKids rest
+end
+
+mutual
+def hasTmpl : Agg → Bool
+  | .node k _ _ tmpl kids => (if k.isSparse then tmpl.isSome else true) && hasTmplOpt tmpl && hasTmplKids kids
+def hasTmplOpt : Option Agg → Bool
+  | none => true
+  | some t => hasTmpl t && noBins t
+def hasTmplKids : List (Key × Agg) → Bool
+  | [] => true
+  | (_, a) :: rest => hasTmpl a && hasTmplKids rest
 end
 
 end Hg
